@@ -67,3 +67,39 @@ impl Iterator for VxReadDir {
 pub fn vx_wrap_read_dir(r: std::io::Result<std::fs::ReadDir>) -> std::io::Result<VxReadDir> {
     match r { Ok(x) => Ok(VxReadDir(x)), Err(e) => Err(e) }
 }
+
+// ---- regex (search_files): opaque types, `Regex::new` / `Regex::is_match` named by uninterpreted functions ----
+#[verifier::external_type_specification]
+#[verifier::external_body]
+pub struct ExBytesRegex(regex::bytes::Regex);
+#[verifier::external_type_specification]
+#[verifier::external_body]
+pub struct ExRegexError(regex::Error);
+/// the pattern text a compiled regex was built from
+pub uninterp spec fn regex_pattern(re: regex::bytes::Regex) -> Seq<char>;
+// "Compiles a regular expression. Once compiled, it can be used repeatedly" / "If an invalid pattern is given, then an error is returned"
+pub assume_specification [regex::bytes::Regex::new] (re: &str) -> (r: core::result::Result<regex::bytes::Regex, regex::Error>)
+    ensures r is Ok ==> regex_pattern(r->Ok_0) == re@;
+// "Returns true if and only if there is a match for the regex anywhere in the haystack given": named by `regex_matches`
+pub assume_specification [regex::bytes::Regex::is_match] (re: &regex::bytes::Regex, haystack: &[u8]) -> (r: bool)
+    ensures r == regex_matches(regex_pattern(*re), haystack@);
+// `String::as_bytes`: "Returns a byte slice of this String's contents" (the UTF-8 encoding, vstd's model)
+pub assume_specification [String::as_bytes] (s: &String) -> (r: &[u8])
+    ensures r@ == vstd::utf8::encode_utf8(s@);
+
+// ---- Path::file_name / OsStr::to_str (get_file_name) ----
+#[verifier::external_type_specification]
+#[verifier::external_body]
+pub struct ExOsStr(std::ffi::OsStr);
+/// `Path::file_name`: "the final component of the Path, if there is one" - `None`: there is none (the path terminates in `..`);
+/// `Some(None)`: it is not valid Unicode; `Some(Some(t))`: its text. Uninterpreted.
+pub uninterp spec fn path_file_name(p: std::path::PathBuf) -> Option<Option<Seq<char>>>;
+/// the text of an OsStr, `None` when it is not valid Unicode
+pub uninterp spec fn os_str_text(s: &std::ffi::OsStr) -> Option<Seq<char>>;
+pub assume_specification [std::path::Path::file_name] (p: &std::path::Path) -> (r: Option<&std::ffi::OsStr>)
+    ensures r is Some == path_file_name(pbuf_of(p)) is Some,
+            r is Some ==> os_str_text(r->0) == path_file_name(pbuf_of(p))->0;
+// "Yields a &str slice if the OsStr is valid Unicode."
+pub assume_specification [std::ffi::OsStr::to_str] (s: &std::ffi::OsStr) -> (r: Option<&str>)
+    ensures r is Some == os_str_text(s) is Some,
+            r is Some ==> r->0@ == os_str_text(s)->0;
